@@ -81,7 +81,7 @@ PROPS = {
         "modules": ["PgBifrost.Props.C05"],
         "components": ["batcher", "crc", "pipeline", "kinesis", "batcherload", "plumbing"],
         "required_theorems": ["PgBifrost.Props.C05.routing_switch_as_in_source", "PgBifrost.Props.C05.kinesis_calls_keep_batch_order", "PgBifrost.Props.C05.in_batch_order", "PgBifrost.Props.C05.partition_routing_fixed",
-                              "PgBifrost.Props.C05.per_key_submission_order", "PgBifrost.Props.C05.single_worker_total_order"],
+                              "PgBifrost.Props.C05.per_key_submission_order", "PgBifrost.Props.C05.single_worker_total_order", "PgBifrost.Props.C05.positional_literals_as_in_source"],
         "partial": "proved up to the worker's input channel (order of batches handed to worker w); that a worker is sequential and its "
                    "channel FIFO is the Go runtime (modelled); submission order at the sink is observed by the pipeline monitor perKeyOrder",
     },
